@@ -309,6 +309,21 @@ pub fn with_qty(o: &Order, v: u64, h: u64) -> Order {
     n
 }
 
+/// the same order under another id
+pub fn with_id(o: &Order, new_id: OrderId) -> Order {
+    let mut n = *o;
+    match &mut n {
+        OrderType::Standard { id, .. }
+        | OrderType::IcebergOrder { id, .. }
+        | OrderType::PostOnly { id, .. }
+        | OrderType::TrailingStop { id, .. }
+        | OrderType::PeggedOrder { id, .. }
+        | OrderType::MarketToLimit { id, .. }
+        | OrderType::ReserveOrder { id, .. } => *id = new_id,
+    }
+    n
+}
+
 /// true iff `a` and `b` differ at most in their quantities
 pub fn same_identity(a: &Order, b: &Order) -> bool {
     with_qty(a, vis(b), hid(b)) == *b
